@@ -81,8 +81,8 @@ add("break-without-exit-info", F, "C07", "dfols/solver.py",
     "                exit_info = ExitInformation(EXIT_SUCCESS, \"All points within noise level\")\n                nruns_so_far += 1\n                break  # quit",
     "                nruns_so_far += 1\n                break  # quit", "C07-9")
 add("message-stem-missing", F, "C07", "dfols/controller.py", "        elif self.flag == EXIT_EVAL_ERROR:\n            return \"Error (function evaluation): \" + self.msg\n", "", "no-stem")
-add("evaluation-before-validation", F, "C07", "dfols/solver.py", "    exit_info = None\n    # Input & parameter checks",
-    "    _r0 = objfun(x0, *argsf)\n    exit_info = None\n    # Input & parameter checks", "before-graceful-return")
+add("evaluation-before-validation", F, "C07", "dfols/solver.py", "    exit_info = None\n    # Check the shapes first",
+    "    _r0 = objfun(x0, *argsf)\n    exit_info = None\n    # Check the shapes first", "before-graceful-return")
 
 add("save-point-nan-holder", F, ["C08", "C17"], "dfols/model.py", "if self.objsave is None or np.isnan(self.objsave) or obj <= self.objsave:", "if self.objsave is None or obj <= self.objsave:", "NAN_HOLDER")
 add("argmin-not-nan-aware", F, "C08", "dfols/model.py", "self.kopt = np.nanargmin(objvals)", "self.kopt = np.argmin(objvals)", "C08-1c")
@@ -376,3 +376,15 @@ add("s-running-mean-incremental-form", S, ["C17", "C03"], "dfols/model.py", "   
     "        self.fval_v[k, :] = self.fval_v[k, :] + (rvec_extra - self.fval_v[k, :]) / float(self.nsamples[k] + 1)\n")
 add("s-running-mean-sum-form", S, ["C17", "C03"], "dfols/model.py", "        self.fval_v[k, :] = t * self.fval_v[k, :] + (1 - t) * rvec_extra\n",
     "        nk = self.nsamples[k]\n        self.fval_v[k, :] = (nk * self.fval_v[k, :] + rvec_extra) / (nk + 1.0)\n")
+
+# ---- C13-7: the geometry step is the better of the two extreme candidates
+add("geometry-comparison-reversed", F, ["C13"], "dfols/trust_region.py", "    if abs(c + np.dot(g, smin)) >= abs(c + np.dot(g, smax)):  # choose the one with largest absolute value\n        return xbase + smin",
+    "    if abs(c + np.dot(g, smin)) <= abs(c + np.dot(g, smax)):  # choose the one with largest absolute value\n        return xbase + smin", "C13-7")
+add("geometry-early-return-of-the-minimiser", F, ["C13"], "dfols/trust_region.py", "    smax = trsbox_linear(-g, lower - xbase, upper - xbase, Delta, use_fortran=use_fortran)  # maximise g' * s\n",
+    "    if c * np.dot(g, smin) > ZERO_THRESH:\n        return xbase + smin\n    smax = trsbox_linear(-g, lower - xbase, upper - xbase, Delta, use_fortran=use_fortran)  # maximise g' * s\n", "C13-7")
+add("convex-geometry-both-candidates-same-sign", F, ["C13"], "dfols/trust_region.py", "    smax = ctrsbox_linear(xbase, -g, projections, Delta,", "    smax = ctrsbox_linear(xbase, g, projections, Delta,", "C13-7")
+add("s-geometry-values-in-temporaries", S, ["C13"], "dfols/trust_region.py", "    if abs(c + np.dot(g, smin)) >= abs(c + np.dot(g, smax)):  # choose the one with largest absolute value\n        return xbase + smin",
+    "    lmin = abs(c + np.dot(g, smin))\n    lmax = abs(c + np.dot(g, smax))\n    if lmax <= lmin:\n        return xbase + smin")
+# ---- C14-2: an early return that skips the clamp
+add("random-directions-fast-path-skips-clamp", F, ["C14"], "dfols/util.py", "    # ninactive = n - nactive\n    idx_active = np.where(active)[0]  # indices of active constraints\n",
+    "    # ninactive = n - nactive\n    if nactive == 0:\n        dirns = np.random.normal(size=(num_pts, n))\n        return dirns * (delta / np.linalg.norm(dirns, axis=1)).reshape((num_pts, 1))\n    idx_active = np.where(active)[0]  # indices of active constraints\n", "C14-2")
